@@ -49,6 +49,8 @@ use crate::values::typing::StarlarkIter;
 struct ListType;
 
 static LIST: LazyLock<TyFunction> = LazyLock::new(|| {
+    #[cfg(feature = "verif_hooks")]
+    let _no_preempt = crate::verif_hooks::NoPreempt::enter();
     TyFunction::new_with_type_attr(
         ParamSpec::pos_only([], [Ty::iter(Ty::any())]),
         Ty::any_list(),
